@@ -85,6 +85,15 @@ func runC10(w *World, tier string, mode string) (bool, interface{}) {
 	if t > n {
 		t = n
 	}
+	// look-alike user names: participants choose their own names, so one of them may
+	// pick a name that differs from another participant's only by white space or case
+	if w.Tape.Bool(1, 3, "lookAlikeNames") {
+		w.NameOf = func(i int) string {
+			return []string{"node_0", "node_0 ", " node_0", "Node_0", "node_0\t", "node_0  ", "NODE_0"}[i%7]
+		}
+		w.Stats.Fault("look-alike-user-names")
+	}
+
 	c := NewCluster(w, n)
 	c.L.Faults.PermuteResults = true
 	c.L.Faults.BoardDownAtSubmit = w.Tape.Bool(1, 2, "boardOutages") // single submissions refused by the board; operators submit again
